@@ -22,6 +22,7 @@ type attrComp struct{}
 // stubEval supplies arbitrary property vectors in place of the modifier manager.
 type stubEval struct {
 	props map[key.TargetID]info.PropMap
+	weak  map[key.TargetID]info.WeaknessMap // weaknesses implanted by modifiers (not the innate ones of the attributes)
 }
 
 func (s *stubEval) EvalModifiers(t key.TargetID) *info.ModifierState {
@@ -29,10 +30,12 @@ func (s *stubEval) EvalModifiers(t key.TargetID) *info.ModifierState {
 	for k, v := range s.props[t] {
 		pm[k] = v
 	}
+	wk := info.NewWeaknessMap()
+	wk.AddAll(s.weak[t])
 	return &info.ModifierState{
 		Props:     pm,
 		DebuffRES: info.NewDebuffRESMap(),
-		Weakness:  info.NewWeaknessMap(),
+		Weakness:  wk,
 		Counts:    map[model.StatusType]int{},
 	}
 }
